@@ -836,7 +836,7 @@ pub fn gen_select(rng: &mut Rng) -> Case {
 fn gen_select_once(rng: &mut Rng) -> Case {
     let mut w = base_world();
     let names: &[&str] =
-        &["a.lua", "b.lua", "c.lua", "t.spec.lua", "u.spec.lua", "m.luau", "notes.txt", "README", ".hidden.lua", "data.json"];
+        &["a.lua", "b.lua", "c.lua", "t.spec.lua", "u.spec.lua", "m.luau", "notes.txt", "README", ".hidden.lua", "data.json", ".lua"];
     let dirs: &[&str] = &["", "sub", "sub/deep", "src", "vendor", ".h", "src/vendor"];
     let n = rng.range(3, max_files(9, 16));
     let mut all: Vec<String> = Vec::new();
